@@ -2,13 +2,13 @@
 SPECIFICATION Spec
 CONSTANTS
   Senders = {1}
-  MaxSend = 3
+  MaxSend = 0
   MaxTele = 0
   M = 4
   R = 2
   T = 4
-  H = 100
-  MaxNow = 6
+  H = 3
+  MaxNow = 8
   MaxNet = 2
   MaxRxq = 2
   MaxGwResend = 1
@@ -16,13 +16,13 @@ CONSTANTS
   LossBudget = 0
   InjBudget = 0
   AdvReq = FALSE
-  GwFaultBudget = 0
-  MaxEpoch = 1
-  EnableHB = FALSE
+  GwFaultBudget = 1
+  MaxEpoch = 2
+  EnableHB = TRUE
   EnableClose = FALSE
   EnableG2C = FALSE
   Adversary = FALSE
-  UseTCP = TRUE
+  UseTCP = FALSE
   ChanUnderLock = TRUE
   AckChanCheck = TRUE
   Urgent = FALSE
